@@ -4,7 +4,7 @@ Every resolver raises mir.AnchorLost when its subject cannot be found (rules the
 import re
 
 import mir
-from mir import op_fn, strip_generics, AnchorLost
+from mir import op_fn, strip_generics, AnchorLost, fn_name
 import lib
 
 
@@ -21,6 +21,99 @@ TABLE = {
     "gc": "garbage_collect_entities",
     "poll": "schedule_removal_and_despawn_reactors",
 }
+
+
+_NAMES_CACHE = {}
+
+
+def names(prog):
+    """TABLE with every entry resolved by role where a role is expressible, the frozen name otherwise. A private item may
+    be renamed freely; what identifies it is what it does with which types:
+
+    * storage_take / storage_insert: the inherent methods of the crate type that stores an `Option<SystemCommandCallback>`
+      (public type name) returning `Option<SystemCommandCallback>` from `&mut self` / accepting a `SystemCommandCallback`;
+    * queue_type: the crate resource with a `VecDeque<T>` field that the runner obtains with `resource_mut`;
+    * queue_push / queue_pop / queue_detach / queue_attach: its methods by signature role (rules/seqalg.py);
+    * counter_type: the crate resource wrapping a single `usize` that the runner reads and writes."""
+    key = id(prog)
+    if key in _NAMES_CACHE and _NAMES_CACHE[key][0] is prog:
+        return _NAMES_CACHE[key][1]
+    out = dict(TABLE)
+    out.update({"queue_push": TABLE["queue_type"] + "::push", "queue_pop": TABLE["queue_type"] + "::pop_front",
+                "queue_detach": TABLE["queue_type"] + "::remove", "queue_attach": TABLE["queue_type"] + "::append",
+                "queue_field": "commands"})
+    # -- callback storage
+    takes, inserts = [], []
+    for b in prog.bodies:
+        if b.kind != "assoc_fn" or b.raw.get("impl_trait"):
+            continue
+        ret = b.local_ty(0)
+        if b.arg_count == 1 and ret.startswith("core::option::Option<") and ret.rstrip(">").endswith("SystemCommandCallback") and b.local_ty(1).startswith("&mut "):
+            takes.append(b)
+        if b.arg_count == 2 and ret == "()" and b.local_ty(2).endswith("SystemCommandCallback") and b.local_ty(1).startswith("&mut "):
+            inserts.append(b)
+    pairs = [(t, i) for t in takes for i in inserts if t.raw.get("impl_self") == i.raw.get("impl_self")]
+    if len(pairs) == 1:
+        out["storage_take"] = lib.tail(pairs[0][0].path, 2)
+        out["storage_insert"] = lib.tail(pairs[0][1].path, 2)
+    # -- queue and counter, seen from the runner
+    try:
+        r = runner(prog)
+    except AnchorLost:
+        r = None
+    res_types = set()
+    if r is not None:
+        for f in [r] + [c for c in prog.bodies if c.kind == "closure" and c.raw.get("root") == r.path]:
+            for b, t, fr in f.iter_calls():
+                if fr and lib.tail(fn_name(fr), 1) in ("resource_mut", "resource", "get_resource_mut", "get_resource"):
+                    for a in fr.get("args", []):
+                        res_types.add(re.sub(r"<.*$", "", a))
+    qs, cs = [], []
+    for p, adt in prog.adts.items():
+        if p not in res_types or adt.get("kind") != "Struct":
+            continue
+        ftys = [f["ty"] for f in adt["variants"][0]["fields"]]
+        if any(t.startswith("alloc::collections::vec_deque::VecDeque<") for t in ftys):
+            qs.append((p, adt))
+        if ftys == ["usize"]:
+            cs.append(p)
+    if len(qs) == 1:
+        qpath, qadt = qs[0]
+        qn = qpath.split("::")[-1]
+        out["queue_type"] = qn
+        for f in qadt["variants"][0]["fields"]:
+            if f["ty"].startswith("alloc::collections::vec_deque::VecDeque<"):
+                out["queue_field"] = f["name"]
+        import seqalg
+        roles = {}
+        for m in methods_of(prog, qn):
+            try:
+                role = seqalg.role_of(m)
+            except Exception:
+                role = None
+            roles.setdefault(role, []).append(m)
+        for role, k in (("push", "queue_push"), ("pop", "queue_pop"), ("detach", "queue_detach"), ("attach", "queue_attach")):
+            if len(roles.get(role, [])) == 1:
+                out[k] = lib.tail(roles[role][0].path, 2)
+            else:
+                out[k] = qn + "::" + out[k].split("::")[-1]
+    if len(cs) == 1:
+        out["counter_type"] = cs[0].split("::")[-1]
+    # -- setup / cleanup carriers: the types of the runner's 3rd and 4th parameters
+    out.update({"setup_type": "SystemCommandSetup", "cleanup_type": "SystemCommandCleanup"})
+    if r is not None and r.arg_count >= 4:
+        out["setup_type"] = re.sub(r"<.*$", "", r.local_ty(3)).split("::")[-1]
+        out["cleanup_type"] = re.sub(r"<.*$", "", r.local_ty(4)).split("::")[-1]
+    for k, ty in (("setup", out["setup_type"]), ("cleanup", out["cleanup_type"])):
+        out[k + "_run"], out[k + "_new"] = ty + "::run", ty + "::new"
+        try:
+            consume, construct = carrier_methods(prog, ty)
+            out[k + "_run"], out[k + "_new"] = lib.tail(consume.path, 2), lib.tail(construct.path, 2)
+        except AnchorLost:
+            pass
+    _NAMES_CACHE.clear()
+    _NAMES_CACHE[key] = (prog, out)
+    return out
 
 
 def command_apply_impls(prog):
@@ -126,6 +219,38 @@ def trait_method(prog, type_suffix, trait_suffix, name):
     if len(out) != 1:
         raise AnchorLost("<%s as %s>::%s: %d matches" % (type_suffix, trait_suffix, name, len(out)))
     return out[0]
+
+
+def carrier_methods(prog, type_suffix):
+    """role: (consume, construct) of a setup/cleanup carrier type: the inherent method taking (self by value, &mut World)
+    and the associated fn without a self parameter that returns the type"""
+    ms = methods_of(prog, type_suffix)
+    consume = [m for m in ms if m.arg_count == 2 and re.sub(r"<.*$", "", m.local_ty(1)).endswith("::" + type_suffix) and "World" in m.local_ty(2) and m.local_ty(0) == "()"]
+    construct = [m for m in ms if re.sub(r"<.*$", "", m.local_ty(0)).endswith("::" + type_suffix) and m.arg_count >= 1
+                 and not any(type_suffix in m.local_ty(i) for i in range(1, m.arg_count + 1))]
+    if len(consume) != 1 or len(construct) != 1:
+        raise AnchorLost("carrier methods of %s: %d consumers, %d constructors" % (type_suffix, len(consume), len(construct)))
+    return consume[0], construct[0]
+
+
+def entity_scheduler(prog):
+    """role: the shared entity-scoped scheduler - the unique crate function (free fn or method) that receives an
+    `EntityReactors` (by reference or as self), an `Entity` and an `EntityReactionType` and does not look the reactors up
+    itself. Returns (body, index of the Entity parameter, index of the EntityReactors parameter)."""
+    cands = []
+    for b in prog.bodies:
+        if b.kind not in ("fn", "assoc_fn") or b.raw.get("impl_trait"):
+            continue
+        tys = [b.local_ty(i) for i in range(1, b.arg_count + 1)]
+        ent = [i + 1 for i, t in enumerate(tys) if t.endswith("entity::Entity")]
+        rea = [i + 1 for i, t in enumerate(tys) if re.sub(r"^&(mut )?", "", t).endswith("::EntityReactors")]
+        rty = [i + 1 for i, t in enumerate(tys) if t.endswith("::EntityReactionType")]
+        buf = [i + 1 for i, t in enumerate(tys) if "ReactionCommand" in t or t.endswith("Commands<'_, '_>")]
+        if len(ent) == 1 and len(rea) == 1 and len(rty) == 1 and buf:
+            cands.append((b, ent[0], rea[0]))
+    if len(cands) != 1:
+        raise AnchorLost("shared entity scheduler: %d candidates" % len(cands))
+    return cands[0]
 
 
 def free_fn(prog, name):
